@@ -4,6 +4,7 @@ package main
 
 import (
 	"go/ast"
+	"go/constant"
 	"go/token"
 	"go/types"
 	"strings"
@@ -250,12 +251,81 @@ func checkMemberFilter(w *World, r *Result) {
 			}
 		}
 	}
-	if napps != 1 {
+	var conds []pcondAt
+	pmap := map[types.Object]types.Object{}
+	var memberObj types.Object
+	pos := ""
+	alt := false
+	if napps == 0 {
+		// the members may be selected by a generic filter helper applied to the candidates with a predicate:
+		// `members := filter(candidates, func(m *types.Named) bool { … })`
+		ast.Inspect(fi.Decl.Body, func(x ast.Node) bool {
+			as, ok := x.(*ast.AssignStmt)
+			if !ok || len(as.Rhs) != 1 || alt {
+				return true
+			}
+			call, ok := ast.Unparen(as.Rhs[0]).(*ast.CallExpr)
+			if !ok || len(call.Args) != 2 {
+				return true
+			}
+			h := w.Funcs[calleeOf(info, call)]
+			lit, isLit := ast.Unparen(call.Args[1]).(*ast.FuncLit)
+			if h == nil || !isLit || !isFilterHelper(h) || lit.Type.Params.NumFields() != 1 || len(lit.Type.Params.List[0].Names) != 1 {
+				return true
+			}
+			if t := info.TypeOf(call.Args[0]); t == nil || t.String() != "[]*go/types.Named" {
+				return true
+			}
+			memberObj = info.Defs[lit.Type.Params.List[0].Names[0]]
+			for _, c := range pathConds(fi.Decl, as) {
+				conds = append(conds, pcondAt{c, fi})
+			}
+			// the predicate holds: every `return false` was passed by, and the returned expression is true
+			nTrue := 0
+			ast.Inspect(lit.Body, func(y ast.Node) bool {
+				ret, ok := y.(*ast.ReturnStmt)
+				if !ok || len(ret.Results) != 1 {
+					return true
+				}
+				if tv := info.Types[ret.Results[0]]; tv.Value != nil && tv.Value.Kind() == constant.Bool && !constant.BoolVal(tv.Value) {
+					return true
+				}
+				nTrue++
+				for _, c := range pathConds(fi.Decl, ret) {
+					if c.expr != nil && c.expr.Pos() >= lit.Pos() && c.expr.End() <= lit.End() {
+						conds = append(conds, pcondAt{c, fi})
+					} else if c.text != "" {
+						conds = append(conds, pcondAt{c, fi})
+					}
+				}
+				if tv := info.Types[ret.Results[0]]; tv.Value == nil {
+					for _, c := range splitCond(ret.Results[0], true) {
+						conds = append(conds, pcondAt{c, fi})
+					}
+				}
+				return true
+			})
+			if nTrue == 1 {
+				alt = true
+				pos = w.Pos(as.Pos())
+			} else {
+				conds = nil
+			}
+			return true
+		})
+	}
+	if !alt && napps != 1 {
 		Undecided("fetchPkgUnions: %d appends of a member (expected 1)", napps)
 	}
-	conds, pmap, okc := interConds(w, fi, appFn, app)
-	if !okc {
-		Undecided("fetchPkgUnions: the helper %s holding the member append is not called at exactly one site", appFn.Name)
+	if !alt {
+		var okc bool
+		conds, pmap, okc = interConds(w, fi, appFn, app)
+		if !okc {
+			Undecided("fetchPkgUnions: the helper %s holding the member append is not called at exactly one site", appFn.Name)
+		}
+		pos = w.Pos(app.Pos())
+		appended := app.Rhs[0].(*ast.CallExpr).Args[1]
+		memberObj = objOf(info, identOf(appended))
 	}
 	resolve := func(o types.Object) types.Object {
 		if m, ok := pmap[o]; ok {
@@ -263,13 +333,10 @@ func checkMemberFilter(w *World, r *Result) {
 		}
 		return o
 	}
-	pos := w.Pos(app.Pos())
-	appended := app.Rhs[0].(*ast.CallExpr).Args[1]
-	memberObj := objOf(info, identOf(appended))
 	// when the members range over a list that an earlier loop filtered out of the candidates, what that filter
 	// requires of an element holds for the member (the filter's loop variable stands for the member)
 	memberAlias := map[types.Object]bool{memberObj: true}
-	if mrs := derivedFrom(appFn, app); mrs != nil || true {
+	if !alt {
 		ast.Inspect(appFn.Decl.Body, func(x ast.Node) bool {
 			rs, ok := x.(*ast.RangeStmt)
 			if !ok || identOf(rs.Value) == nil || objOf(info, identOf(rs.Value)) != memberObj || identOf(rs.X) == nil {
@@ -429,6 +496,64 @@ func isLenNonEmptyCond(info *types.Info, c pcond) bool {
 		return v == truth
 	}
 	return !holds(0) && holds(1) && holds(2) && holds(3)
+}
+
+// isFilterHelper: h(list []T, keep func(T) bool) []T returns, in order, exactly the elements of list for which keep
+// holds: one range over the slice parameter, one append of the range value under the single condition keep(value).
+func isFilterHelper(h *FuncInfo) bool {
+	if h == nil || h.Decl.Body == nil || h.Decl.Type.Params.NumFields() != 2 {
+		return false
+	}
+	info := h.Pkg.TypesInfo
+	var listP, keepP types.Object
+	for _, f := range h.Decl.Type.Params.List {
+		for _, nm := range f.Names {
+			o := info.Defs[nm]
+			switch o.Type().Underlying().(type) {
+			case *types.Slice:
+				listP = o
+			case *types.Signature:
+				keepP = o
+			}
+		}
+	}
+	if listP == nil || keepP == nil {
+		return false
+	}
+	ok := false
+	n := 0
+	ast.Inspect(h.Decl.Body, func(x ast.Node) bool {
+		rs, isRange := x.(*ast.RangeStmt)
+		if !isRange {
+			return true
+		}
+		n++
+		if identOf(rs.X) == nil || objOf(info, identOf(rs.X)) != listP || identOf(rs.Value) == nil {
+			return true
+		}
+		v := info.Defs[identOf(rs.Value)]
+		apps := appendStmts(info, rs.Body, "")
+		if len(apps) != 1 {
+			return true
+		}
+		a := apps[0]
+		if id := identOf(a.Rhs[0].(*ast.CallExpr).Args[1]); id == nil || objOf(info, id) != v {
+			return true
+		}
+		var cs []pcond
+		for _, c := range pathConds(h.Decl, a) {
+			if c.expr != nil && !c.loop {
+				cs = append(cs, c)
+			}
+		}
+		if len(cs) == 1 && cs[0].truth {
+			if call, isCall := ast.Unparen(cs[0].expr).(*ast.CallExpr); isCall && identOf(call.Fun) != nil && objOf(info, identOf(call.Fun)) == keepP && len(call.Args) == 1 && identOf(call.Args[0]) != nil && objOf(info, identOf(call.Args[0])) == v {
+				ok = true
+			}
+		}
+		return true
+	})
+	return ok && n == 1
 }
 
 func checkUnionNode(w *World, r *Result) {
